@@ -402,3 +402,44 @@ package kvgraph
 //@   ensures notouch: len(stream) == 0 ==> same(touchedset(), old(touchedset()))
 //@   ensures onlythis: forall g:Str :: g != kgdb.graph ==> (touched(g) <==> old(touched(g)))
 //@   ensures atomic: kvwrites() <= old(kvwrites()) + 1
+
+// ---- C03: point reads observe exactly the stored element ---------------------------------
+// GetVertex returns a vertex iff the vertex key of (graph, id) is stored (and its value
+// decodes); the result carries the requested id and the stored label; nothing is written.
+//@ func (*KVInterfaceGDB).GetVertex
+//@   property C03
+//@   option prelude=keys,kv
+//@   option load=kvindex,kvi,timestamp,gdbi,gripql
+//@   option globals=kvgraph
+//@   modifies alloc H.gdbi. H.gripql. H.structpb. MapD. MapV. MapN SH. KV.it Box.
+//@   requires nonnil: kgdb != nil && kgdb.kvg != nil && kgdb.kvg.kv != nil
+//@   ensures absent: !kvhas(VertexKey(kgdb.graph, id)) ==> result == nil
+//@   ensures present: result != nil ==> kvhas(VertexKey(kgdb.graph, id)) && result.ID == id && result.Loaded &&
+//@       result.Label == vlabel(kvval(VertexKey(kgdb.graph, id)))
+//@   ensures readonly: same(kvdom(), old(kvdom())) && same(kvvals(), old(kvvals())) && kvwrites() == old(kvwrites())
+
+// What decoding a stored vertex yields (ASSUMED of google.golang.org/protobuf): the label
+// field of the message is the label the bytes carry.
+//@ extern google.golang.org/protobuf/proto.Unmarshal@kvgraph
+//@   params b m
+//@   option prelude=kv
+//@   modifies H.gripql. H.structpb. MapD. MapV. MapN SH. alloc
+//@   ensures vertex: result == nil && dyn(m, "*gripql.Vertex") ==> ptr(m, "*gripql.Vertex").Label == vlabel(b)
+
+// GetEdge returns an edge iff some edge key of (graph, id) is stored; id, endpoints and
+// label are the components of that key; nothing is written.
+//@ func (*KVInterfaceGDB).GetEdge
+//@   property C03
+//@   option prelude=keys,kv
+//@   option load=kvindex,kvi,timestamp,gdbi,gripql
+//@   option globals=kvgraph
+//@   modifies alloc H.gdbi. H.gripql. H.structpb. MapD. MapV. MapN SH. KV.it Box.
+//@   requires nonnil: kgdb != nil && kgdb.kvg != nil && kgdb.kvg.kv != nil
+//@   let pre = EdgeKeyPrefix(kgdb.graph, id)
+//@   loop 101 invariant store: same(kvdom(), old(kvdom())) && same(kvvals(), old(kvvals())) && kvwrites() == old(kvwrites())
+//@   loop 101 invariant iter: itvalid() ==> kvhas(itpos())
+//@   loop 101 invariant none: e == nil ==> (itvalid() <==> (exists j:Str :: kvhas(j) && ble(ekeyPrefix, j))) &&
+//@       (itvalid() ==> ble(ekeyPrefix, itpos()) && (forall j:Str :: kvhas(j) && ble(ekeyPrefix, j) ==> ble(itpos(), j)))
+//@   loop 101 invariant noprefix: (forall k:Str :: kvhas(k) ==> !hasprefix(k, ekeyPrefix)) ==> e == nil
+//@   ensures absent: (forall k:Str :: kvhas(k) ==> !hasprefix(k, pre)) ==> result == nil
+//@   ensures readonly: same(kvdom(), old(kvdom())) && same(kvvals(), old(kvvals())) && kvwrites() == old(kvwrites())
